@@ -217,6 +217,20 @@ class LibMixin:
         rm.opaque = True
         rm.ns['default_rng'] = Builtin('default_rng', self.bi_default_rng)
         rm.ns['Generator'] = BuiltinType('Generator')
+        # module-level sampling functions of numpy.random draw from (and advance) the process-wide legacy state: a
+        # generator that was not passed in; the effect is what the implicit C02/C03 clause reports
+        self.global_np_rng = Rng('numpy.random global state')
+        def legacy(fname, method):
+            def call(I, a, k):
+                self.note_effect('global_write', f'numpy.random.{fname} uses the process-wide random state')
+                self.note_effect('draw', self.global_np_rng)
+                if method is None:
+                    return None
+                return self.call(self.rng_method(self.global_np_rng, method), list(a), dict(k))
+            return Builtin('numpy.random.' + fname, call)
+        for fname, method in (('choice', 'choice'), ('randint', 'integers'), ('shuffle', 'shuffle'), ('random', 'random'),
+                              ('random_sample', 'random'), ('rand', 'random'), ('seed', None)):
+            rm.ns[fname] = legacy(fname, method)
         self.stub_modules['numpy.random'] = rm
         nm.ns['random'] = rm
         # gym (interpreted prelude: only what gym_gridverse/gym.py touches; part of the trusted base T3)
